@@ -177,7 +177,9 @@ def check_from_intervals(col, case):
     cls = ("array-values" if is_array else "scalar-values") + (":default-nonzero" if default not in (0, False) else "")
     if has_touching(lay):
         cls += ":touching"
-    sig = "from_intervals:" + cls
+    # exceptions: one signature per (value mode, exception type); touching layouts of the scalar mode apart (they are
+    # the only ones that reach the run-length constructor with an empty run)
+    sig = "from_intervals:" + ("array-values" if is_array else "scalar-values" + (":touching" if has_touching(lay) else ""))
     rla = col.guarded(lambda: GenomicRunLengthArray.from_intervals(starts, ends, size, values=values, default_value=default),
                       sig, case)
     if rla is None:
@@ -222,7 +224,7 @@ def check_rla_from_bedgraph(col, case):
     exp = expand(n, [(s, e, x) for (s, e), x in zip(lay, vals)], 0)
     bg = BedGraph(["c"] * len(lay), np.array([s for s, _ in lay], dtype=int), np.array([e for _, e in lay], dtype=int),
                   np_values(vals, vtype))
-    sig = "rla_from_bedgraph:%s:%s" % (vtype, "size-given" if size_arg == "size" else "size-None")
+    sig = "rla_from_bedgraph:%s" % ("size-given" if size_arg == "size" else "size-None")
     rla = col.guarded(lambda: GenomicRunLengthArray.from_bedgraph(bg, size if size_arg == "size" else None), sig, case)
     if rla is None:
         return
@@ -231,7 +233,7 @@ def check_rla_from_bedgraph(col, case):
         return
     fl = layout_flags(lay, n)
     col.check(len(rla) == n, "rla_from_bedgraph:wrong-length:%s" % fl, case, "len %r expected %r" % (len(rla), n))
-    col.check(lists_equal(got, exp), "rla_from_bedgraph:wrong-dense:%s:%s" % (vtype, fl), case, "got %r expected %r" % (got, exp))
+    col.check(lists_equal(got, exp), "rla_from_bedgraph:wrong-dense:%s" % fl, case, "got %r expected %r" % (got, exp))
 
 
 def gen_rla_from_bedgraph(tier):
@@ -349,7 +351,7 @@ def check_track(col, case, tmp=None):
     dense = dense_genome(genome, recs, 0)
     col.case(case, contract="track:" + route)
     g = make_genome(genome)
-    sig = "track:%s:%s" % (route, vtype)
+    sig = "track:%s" % route
     if route == "get_track":
         t = col.guarded(lambda: g.get_track(build_bedgraph(recs, vtype)), sig, case)
     elif route == "from_bedgraph":
@@ -397,8 +399,12 @@ def check_track_stream(col, case, g, genome, recs, vtype, dense, sig):
     split = case.get("split")
 
     def chunks():
+        # no empty chunks (grouping a stream with an empty chunk is a streaming matter, not C09): an empty
+        # bedGraph is the stream without chunks
+        if not recs:
+            return NpDataclassStream([])
         bg = build_bedgraph(recs, vtype)
-        if split is None or len(recs) < 2:
+        if split is None or not (0 < split < len(recs)):
             return NpDataclassStream([bg])
         return NpDataclassStream([bg[:split], bg[split:]])
     data = col.guarded(lambda: compute(g.get_track(chunks()).get_data()), sig, case)
@@ -642,6 +648,15 @@ class ExprEnv:
             d = dense_mask(self.genome, ivs)
             self.np[name] = np.array([x for n, _ in self.genome for x in d[n]], dtype=bool)
         self.cache = {}
+        self.bad = set()
+
+    def check_leaves(self, col, leafcase):
+        for name in ("A", "B", "M", "K"):
+            case = dict(leafcase, kind="expr", expr=L(name))
+            dense = self.split(self.np[name].tolist())
+            if not check_to_dict(col, self.bnp[name], self.genome, dense,
+                                 "expr:leaf:" + ("track" if name in "AB" else "mask"), case):
+                self.bad.add(name)
 
     def split(self, flat):
         out, p = {}, 0
@@ -673,7 +688,12 @@ class ExprEnv:
 def check_expr(col, env, leafcase, e, full=True):
     import numpy as np
     case = dict(leafcase, kind="expr", expr=e)
-    col.case({"leaves": leafcase, "expr": expr_str(e)}, contract="expression:depth%d" % expr_depth(e))
+    key = expr_str(e)
+    # an operand whose own value is already known to be wrong (reported at its own level) is not blamed on this operator
+    if any(expr_str(x) in env.bad for x in e[1:] if x[0] != "scalar"):
+        env.bad.add(key)
+        return
+    col.case({"leaves": leafcase, "expr": key}, contract="expression:depth%d" % expr_depth(e))
     rs = root_sig(e)
     # operands first (sub-expression failures have been reported at their own level)
     try:
@@ -696,6 +716,7 @@ def check_expr(col, env, leafcase, e, full=True):
     col.check((got.dtype == bool) == (exp.dtype == bool), sig + ":boolean-ness-differs", case,
               "%s: dtype %r, NumPy gives %r" % (expr_str(e), got.dtype, exp.dtype))
     if not check_to_dict(col, got, genome, dense, sig, case):
+        env.bad.add(key)
         return
     total = exp.sum()
     s = col.guarded(lambda: (np.sum(got), got.sum()), "expr:sum", case)
@@ -711,7 +732,8 @@ def check_expr(col, env, leafcase, e, full=True):
                 eh = np.histogram(exp, **kw)
                 col.check(lists_equal(np.asarray(h[0]).tolist(), eh[0].tolist()), "expr:histogram:wrong-counts", case,
                           "%s %r: got %r expected %r" % (expr_str(e), kw, np.asarray(h[0]).tolist(), eh[0].tolist()))
-                col.check(np.allclose(np.asarray(h[1], dtype=float), np.asarray(eh[1], dtype=float), rtol=1e-12, atol=1e-12),
+                ge, ee = np.asarray(h[1], dtype=float), np.asarray(eh[1], dtype=float)
+                col.check(ge.shape == ee.shape and bool(np.allclose(ge, ee, rtol=1e-12, atol=1e-12)),
                           "expr:histogram:wrong-edges", case, "%s %r: got %r expected %r" % (expr_str(e), kw, h[1], eh[1]))
     check_backconversion(col, got, genome, dense, "expr", case, is_bool=bool(exp.dtype == bool))
 
@@ -769,16 +791,17 @@ def run_expressions(col, tier):
     sets = leaf_sets(tier)
     d2 = None
     # depth 2: exhaustive over the typed grammar on a few leaf sets (thorough) / a strided + seeded sample (quick)
-    deep = [2, 7, 12, 31, 33] if tier == "quick" else [2, 7, 12, 16, 23, 30, 31, 32, 33]
-    per_set = 900 if tier == "quick" else None
+    deep = [2, 7, 12, 31, 33] if tier == "quick" else [2, 7, 12, 23, 31, 33]
+    per_set = 700 if tier == "quick" else None
     for idx, leafcase in enumerate(sets):
         if col.out_of_time():
             return
         env = col.guarded(lambda: ExprEnv(col, leafcase), "expr:leaves", dict(leafcase, kind="expr", expr=L("A")))
         if env is None:
             continue
+        env.check_leaves(col, leafcase)
         for e in d1:
-            check_expr(col, env, leafcase, e, full=True)
+            safely(col, lambda c: check_expr(col, env, leafcase, e, full=True), dict(leafcase, kind="expr", expr=e), nocol=True)
         if idx in deep:
             if d2 is None:
                 d2 = list(depth2_exprs())
@@ -789,7 +812,8 @@ def run_expressions(col, tier):
                 chosen = sorted(set(list(range(idx % stride, len(d2), stride)) +
                                     [col.rng.randrange(len(d2)) for _ in range(per_set // 2)]))
             for n, i in enumerate(chosen):
-                check_expr(col, env, leafcase, d2[i], full=(n % 4 == 0))
+                safely(col, lambda c: check_expr(col, env, leafcase, d2[i], full=(n % 4 == 0)),
+                       dict(leafcase, kind="expr", expr=d2[i]), nocol=True)
                 if n % 200 == 0 and col.out_of_time():
                     return
 
@@ -797,6 +821,13 @@ def run_expressions(col, tier):
 # --------------------------------------------------------------------------------------------- driver
 CHECKERS = {"to_array": check_to_array, "from_intervals": check_from_intervals, "rla_from_bedgraph": check_rla_from_bedgraph,
             "cover": check_cover}
+
+
+def safely(col, fn, case, *args, nocol=False):
+    """safety net: a result so malformed that the comparison code itself raises is a failure of the case, not a crash"""
+    if nocol:
+        return col.guarded(lambda: fn(case), "%s:malformed-result" % case["kind"], case)
+    return col.guarded(lambda: fn(col, case, *args), "%s:malformed-result" % case["kind"], case)
 
 
 def run(tier="quick", seed=0):
@@ -810,7 +841,7 @@ def run(tier="quick", seed=0):
                     "typed grammar on %d leaf sets, depth-2 expressions %s. distinct = distinct (input, operation); every case "
                     "builds an array from records and compares with an independently expanded dense array"
                     % (5 if quick else 7, 6 if quick else 8, len(leaf_sets(tier)),
-                       "sampled (stride + seed) on 5 leaf sets" if quick else "exhaustive on 9 leaf sets"))
+                       "sampled (stride + seed) on 5 leaf sets" if quick else "exhaustive on 6 leaf sets"))
     col.bounds = {"to_array": {"n": "0..%d" % (5 if quick else 7), "dtypes": list(DTYPE_PALETTES)},
                   "from_intervals": {"size": "1..%d" % (6 if quick else 8), "modes": list(FI_MODES)},
                   "rla_from_bedgraph": {"size": "1..%d" % (5 if quick else 7), "patterns": list(VALUE_PATTERNS), "size_arg": ["size", "None"]},
@@ -822,15 +853,15 @@ def run(tier="quick", seed=0):
     with TmpDir() as tmp:
         for gen in (gen_to_array, gen_from_intervals, gen_rla_from_bedgraph):
             for case in gen(tier):
-                CHECKERS[case["kind"]](col, case)
+                safely(col, CHECKERS[case["kind"]], case)
             if col.out_of_time():
                 return col.result()
         for n, case in enumerate(gen_tracks(tier)):
-            check_track(col, case, tmp)
+            safely(col, check_track, case, tmp)
             if n % 100 == 0 and col.out_of_time():
                 return col.result()
         for n, case in enumerate(gen_cover(tier)):
-            check_cover(col, case)
+            safely(col, check_cover, case)
             if n % 100 == 0 and col.out_of_time():
                 return col.result()
         run_expressions(col, tier)
@@ -849,7 +880,9 @@ def replay(case):
             leafcase = {k: v for k, v in case.items() if k not in ("kind", "expr")}
             env = col.guarded(lambda: ExprEnv(col, leafcase), "expr:leaves", case)
             if env is not None:
-                check_expr(col, env, leafcase, case["expr"], full=True)
+                env.check_leaves(col, leafcase)
+                if case["expr"][0] != "leaf":
+                    check_expr(col, env, leafcase, case["expr"], full=True)
         elif kind in CHECKERS:
             CHECKERS[kind](col, case)
         else:
